@@ -74,7 +74,12 @@ def denote(ty: Ty, v):
 
 def same_value(ty: Ty, v, aval):
     """(equal?, observed) — equality of denotations modulo base58 notation (edsig../sig..)."""
-    obs = denote(ty, v)
+    try:
+        obs = denote(ty, v)
+    except ObserveError as e:
+        # the value under observation was produced by the code under test: a value that is not a well-formed value of the
+        # expected type does not denote the expected value (reported as a failed `denotes`/`equal` clause, not as a harness crash)
+        return False, f'<not a well-formed value of the type: {e}>'
     return canon_value(ty, obs) == canon_value(ty, aval), obs
 
 
